@@ -22,8 +22,7 @@ def sweep(rng, n):
 oracle_search = propgen.budgeted([sweep])
 
 
-def oracle_at(unit, case, impl):
-    return None
+oracle_at = propgen.definitional_oracle_at(['io_delimited', 'io_wrappers'], 'the loader returns exactly what the file encodes / raises as specified')
 
 
 def diagnose(b):
